@@ -356,7 +356,7 @@ func containsAttr(b []byte, lowName string) bool {
 func C09Plan() *vlib.Plan {
 	p := &vlib.Plan{
 		Property: "C09", Level: "exploration",
-		Rule:   "E-ENUM full product: every case variant of the 6 fixed private names (all 2^n variants for names <= 8 letters, lower/upper/single-letter flips otherwise) and of the _condor_priv prefix x suffixes {'',X,_key}, x all 64 option-bit sets x 4 whitelist shapes (none, public only, naming the private name, naming it in another case) x peer versions (6 fixed; for reserved-prefix names a 41-point grid major {6,8,9,10,23} x minor {0,8,9,10} x patch {0,13} + none) x 4 stream states (no key; keyed and encrypting; keyed but not encrypting; the same after an earlier PutSecret/GetSecret exchange); ad also holds near-miss public names. Oracle: independent search of wire bytes and of their reference decryption for the private name and a unique canary; real receiver in the same state must rebuild the filtered ad and stay in sync (sentinel). Non-trivial = every combo (each serialises an ad holding a private attribute).",
+		Rule:   "E-ENUM full product: every case variant of the 6 fixed private names (all 2^n variants for names <= 8 letters, lower/upper/single-letter flips otherwise) and of the _condor_priv prefix x suffixes {'',X,_key}, x all 64 option-bit sets x 4 whitelist shapes (none, public only, naming the private name, naming it in another case) x peer versions (6 fixed; for reserved-prefix names a 41-point grid major {6,8,9,10,23} x minor {0,8,9,10} x patch {0,13} + none) x 4 stream states (no key; keyed and encrypting; keyed but not encrypting; the same after an earlier PutSecret/GetSecret exchange); ad also holds near-miss public names. Oracle: independent search of wire bytes and of their reference decryption for the private name and a unique canary; real receiver in the same state must rebuild the filtered ad and stay in sync (sentinel). Plus private values whose serialised length runs over 1 MiB-72 .. 1 MiB+40 (and around 2 MiB) in every stream state, with canaries at both ends of the value. Non-trivial = every combo (each serialises an ad holding a private attribute).",
 		Assume: []string{"reference decryption by refcodec; canary strings are unique 10+ character tokens"},
 	}
 	p.Gen = func(tier string, yield func(vlib.Case)) {
@@ -375,6 +375,24 @@ func C09Plan() *vlib.Plan {
 			}
 			yield(vlib.Case{ID: "name/" + n, Run: func() *vlib.Result { return c09RunName(i, n, v2[n], false, vs) }})
 		}
+		// a private value around the 1 MiB frame limit, in every stream state
+		for st := stNoKey; st <= stKeyedClearAfterSecret; st++ {
+			st := st
+			yield(vlib.Case{ID: fmt.Sprintf("huge-private-value/%v", st), Run: func() *vlib.Result {
+				res := &vlib.Result{}
+				const MiB = 1 << 20
+				for d := -72; d <= 40; d++ {
+					if tier != "thorough" && d%2 != 0 && (d < -40 || d > 8) {
+						continue
+					}
+					c09HugeSecret(res, "ClaimId", st, MiB+d)
+				}
+				for _, n := range []int{MiB - 4096, 2*MiB - 33, 2*MiB - 1, 2 * MiB, 2*MiB + 17} {
+					c09HugeSecret(res, "_condor_priv_key", st, n)
+				}
+				return res
+			}})
+		}
 		if tier == "thorough" {
 			for i, n := range names {
 				if i%7 != 0 {
@@ -386,4 +404,63 @@ func C09Plan() *vlib.Plan {
 		}
 	}
 	return p
+}
+
+// c09HugeSecret: a private attribute whose serialised form ("Name = \"value\"" + NUL) is `total`
+// bytes long - around the 1 MiB frame limit, where the encoder splits the value over several
+// frames - sent on a keyed stream in state st with the opt-in. The value starts and ends with
+// a canary: neither may show outside an encrypted frame, and the receiver rebuilds the value.
+func c09HugeSecret(res *vlib.Result, name string, st c09State, total int) {
+	ctx := context.Background()
+	res.Evals++
+	res.Nontrivial++
+	head, tail := "HEADCANARY7Q", "TAILCANARY7Q"
+	overhead := len(name) + len(" = \"\"") + 1
+	pad := total - overhead - len(head) - len(tail)
+	if pad < 0 {
+		return
+	}
+	val := head + strings.Repeat("s", pad) + tail
+	ad := classad.New()
+	_ = ad.Set("Pub", "pubvalue")
+	_ = ad.Set(name, val)
+	_ = ad.Set("After", "x")
+	_ = ad.Set("MyType", "Machine")
+	sb := &netsim.Buf{}
+	m := message.NewMessageForStream(c09Stream(st, sb))
+	err := m.PutClassAdWithOptions(ctx, ad, &message.PutClassAdConfig{Options: message.PutClassAdIncludePrivate})
+	if err == nil {
+		err = m.PutInt(ctx, 424242)
+	}
+	if err == nil {
+		err = m.FinishMessage(ctx)
+	}
+	id := fmt.Sprintf("name=%s serialised-length=%d state=%v", name, total, st)
+	if err != nil {
+		res.Violate("C09/send-error", "%s: %v", id, err)
+		return
+	}
+	clear, _, _ := c09Views(sb.W, st != stNoKey)
+	if st != stNoKey {
+		for _, c := range []string{head, tail} {
+			if bytes.Contains(clear, []byte(c)) || (st == stEncrypting && bytes.Contains(sb.W, []byte(c))) {
+				res.Violate("C09/secret-in-clear/huge-value", "%s: part of the private value (%s) is on the wire outside an encrypted frame", id, c)
+				return
+			}
+		}
+		// no long run of the value's filler in clear either
+		if bytes.Contains(clear, []byte(strings.Repeat("s", 24))) {
+			res.Violate("C09/secret-in-clear/huge-value", "%s: a stretch of the private value is on the wire outside an encrypted frame", id)
+			return
+		}
+	}
+	got, err := message.NewMessageFromStream(c09Stream(st, &netsim.Buf{R: sb.W})).GetClassAd(ctx)
+	if err != nil {
+		res.Violate(fmt.Sprintf("C09/receiver-error/%v", st), "%s: receiver failed: %v", id, err)
+		return
+	}
+	if v, ok := got.EvaluateAttrString(name); !ok || v != val {
+		res.Violate(fmt.Sprintf("C09/receiver-mismatch/%v", st), "%s: the private value did not arrive intact (%d bytes of %d)", id, len(v), len(val))
+	}
+	res.Outcome("huge-secret-ok")
 }
